@@ -15,6 +15,7 @@ A *case* is a structural tuple, never source text.  Four families::
     ignore     bool                                                  (include … ignore missing)
     target     how the helper is named in the statement:
                "lit" "h"; "list" ["nope", "h"]; "var" tv="h"; "varlist" tv=["nope","h"];
+               "lit-warm" = "lit" after the harness touched env.get_template("h").module (cached default module);
                "obj" tv=env.get_template("h", globals=…); "fs" tv=env.from_string(<h source>, globals=…);
                "lit-missing" "nope"; "list-missing" ["nope","nope2"]; "var-missing" tv="nope";
                "boom" (existing template that raises UndefinedError);
@@ -57,9 +58,9 @@ import itertools
 FEATURES = ("pubm", "privm", "topa", "priva", "ifa", "fora", "impas", "impfrom")
 PLACEMENTS = ("top", "for", "with", "macro", "afterset")
 CTXS = (None, "with", "without")
-INC_TARGETS = ("lit", "list", "var", "varlist", "obj", "fs", "lit-missing", "list-missing", "var-missing", "boom",
+INC_TARGETS = ("lit", "lit-warm", "list", "var", "varlist", "obj", "fs", "lit-missing", "list-missing", "var-missing", "boom",
                "inner-missing")
-IMP_TARGETS = ("lit", "var", "obj", "fs", "lit-missing")
+IMP_TARGETS = ("lit", "lit-warm", "var", "obj", "fs", "lit-missing")
 FROM_VARIANTS = ("names", "priv", "callmissing")
 HOWS = ("get/module", "get/make_module", "fs/module", "fs/make_module")
 
@@ -223,7 +224,7 @@ def _ctx_words(ctx):
 
 
 def _target_expr(target):
-    if target == "lit":
+    if target in ("lit", "lit-warm"):
         return '"h"'
     if target == "list":
         return '["nope", "h"]'
@@ -354,7 +355,11 @@ def build(case, env_kwargs=None):
     env.globals.update(g["env"])
     # api.rst get_template: "globals: Extend the environment globals with these extra variables
     # available for all renders of this template"; a cached template keeps them
-    env.get_template("h", globals=g["h"])
+    h = env.get_template("h", globals=g["h"])
+    if _fields(case).get("target") == "lit-warm":
+        # docs "Import": imports are cached -- a default module that already exists must not change
+        # what a later include/import can see
+        str(h.module)
     bound = {}
     for k, v in data.items():
         if isinstance(v, TemplateRef):
